@@ -3,8 +3,8 @@
    Model/Url.v (net/url, path/filepath on the stated grammar: EXTERNAL, modelled not verified).
    Layer 1 is parametric in the URL library: it holds for every function standing in for
    url.Parse / URL.Query / filepath.Clean, so it carries no trust in Model/Url.v. *)
-From AP.Model Require Import Prelude Bytes Url IriEq IriNf CollIri IriNfX.
-From AP.Proofs Require Import NlvP IriEqP LowerP SortP IriGenP IriNfP IriXP.
+From AP.Model Require Import Prelude Bytes Url IriEq IriNf Vocab Pred CollIri IriNfX Utf8 FoldTab Fold UrlU IriEqU.
+From AP.Proofs Require Import NlvP IriEqP LowerP SortP IriGenP IriNfP IriXP Utf8P FoldP DecodeUP CleanUP UrlUP QueryUP IriGenUP IriUP ConservUP.
 From Coq Require Import Sorting.Permutation.
 
 (* ---- layer 1: arbitrary strings, arbitrary library behaviour ---- *)
@@ -221,11 +221,215 @@ Example C14_char_x_example :
   iri_eqb a c false = false.     (* the plain model abstains on escapes: iri_equals_m a c false = None *)
 Proof. cbv zeta. repeat split; vm_compute; reflexivity. Qed.
 
-(* REMAINS OUTSIDE: IRIs that neither parser accepts as UValid - percent-escapes in the query or the fragment,
+(* REMAINS OUTSIDE layers 2-4 (see layer 5 for the wide grammar): IRIs that neither parser accepts as UValid - percent-escapes in the query or the fragment,
    escapes decoding to bytes >= 0x80, userinfo, IPv6 literals, raw bytes >= 0x80, characters outside the alphabets
    of Model/Url.v, URLs without host - have no normal form in the model; for them layer 1 (reflexive, symmetric)
    is all that is proved.  The harness exercises escapes in queries natively (escape grid, all pairs and triples
    against the net/url normal form).  C09 / C10 are stated over the plain parser (iri_eqb). *)
+
+(* ---- layer 5: the WIDE grammar.  Model/UrlU.v follows net/url of go1.23 on all byte strings but those with userinfo
+   or an IP literal: raw bytes >= 0x80 and "%XX" escapes of any byte in host, path, query and fragment, any ASCII
+   byte url.Parse takes; Model/Fold.v is strings.EqualFold with Unicode simple case folding over the decoded runes
+   (an invalid byte is U+FFFD; U+212A KELVIN SIGN folds onto "k", U+017F onto "s"; the table is Go's, compared with
+   unicode.SimpleFold over all runes on every run: Cases_C14_foldtab); Model/IriEqU.iri_equ is the code of
+   IRI.Equals over them (compared with the real IRI.Equals by Cases_C14_ueq, Cases_C15_ueq; the library models by
+   Cases_C14_ulib, Cases_C14_fold).
+   Domain (iri_dom_u): the IRI is valid UTF-8 as a string, url.Parse gives it a scheme and a host, and its query
+   string is ASCII and holds no upper-case letter OUTSIDE the two hex digits of well-formed escapes.
+   READING of "query strings in one letter case" with escapes: the fast path folds the raw string, the URL comparison
+   decodes the query (url.ParseQuery: "+" is a space, "%XX" a byte, a setting with ";" or a malformed escape is dropped)
+   and compares keys and values exactly.  "%4a" and "%4A" are the same value, so the letter case of the hex digits
+   of escapes is free; the case of the DECODED letters is not what matters ("%4A" = "J" and "%6A" = "j" differ as
+   raw strings and as values: consistent); what must be in one case are the letters written literally. ---- *)
+
+(* strings.EqualFold is the kernel of the canonical form (the decoded runes, each replaced by the smallest rune of
+   its simple-folding orbit): an equivalence relation on all byte strings *)
+Theorem C14_fold_kernel : forall a b, ufold_eqb a b = true <-> ucanon a = ucanon b.
+Proof. exact ufold_eqb_eq. Qed.
+(* on ASCII strings it is the ASCII folding the plain layers use *)
+Theorem C14_fold_ascii : forall a b, forallb is_asciib a = true -> forallb is_asciib b = true -> ufold_eqb a b = fold_eqb a b.
+Proof. exact ufold_eqb_ascii. Qed.
+(* the table condition the theorems rest on (no rune >= 0x80 folds onto an ASCII rune other than "K" and "S"),
+   re-established on the generated table *)
+Theorem C14_fold_table_ok : fold_tab_ok fold_tab = true.
+Proof. exact fold_tab_is_ok. Qed.
+
+(* the code with ASCII folding and the plain parser is the code of layers 1-4 *)
+Theorem C14_equals_f_is_equals : forall classify qvalues veq peq i w cs,
+  iri_equals_f fold_eqb classify qvalues veq peq i w cs = iri_equals classify qvalues veq peq i w cs.
+Proof. exact iri_equals_f_plain. Qed.
+
+(* reflexive and symmetric on ALL byte strings (invalid UTF-8, userinfo, IP literals included) *)
+Theorem C14_refl_u : forall s cs, iri_equals_u s s cs = Some true.
+Proof. exact iri_equals_u_refl. Qed.
+Theorem C14_sym_u : forall a b cs, iri_equals_u a b cs = iri_equals_u b a cs.
+Proof. exact iri_equals_u_sym. Qed.
+
+(* percent-decoding respects EqualFold on valid UTF-8 *)
+Theorem C14_decode_fold_u : forall rp rp' d d',
+  utf8_valid rp = true -> utf8_valid rp' = true -> ucanon rp = ucanon rp' ->
+  pct_decode rp = Some d -> pct_decode rp' = Some d' -> ucanon d = ucanon d'.
+Proof. exact pct_decode_ucanon. Qed.
+(* ... and only there: a raw lead byte can be completed by ESCAPED continuation bytes *)
+Theorem C14_decode_fold_needs_valid_utf8 :
+  exists rp rp' d d', ucanon rp = ucanon rp' /\ pct_decode rp = Some d /\ pct_decode rp' = Some d' /\ ucanon d <> ucanon d'
+    /\ utf8_valid rp = false.
+Proof. exact invalid_utf8_decode_differs. Qed.
+
+(* filepath.Clean respects EqualFold, for all byte strings *)
+Theorem C14_clean_fold_u : forall p p', ucanon p = ucanon p' -> ucanon (path_clean p) = ucanon (path_clean p').
+Proof. exact path_clean_feq. Qed.
+
+(* the fast path implies the URL comparison of scheme, host and cleaned path, and EqualFold-equal raw queries *)
+Theorem C14_fast_path_u : forall a b cs u w,
+  utf8_valid a = true -> utf8_valid b = true ->
+  url_classify_u a = UValid u -> url_classify_u b = UValid w ->
+  ufold_eqb (strip_for cs a) (strip_for cs b) = true ->
+  (cs = true -> ucanon (u_scheme u) = ucanon (u_scheme w)) /\
+  ucanon (u_host u) = ucanon (u_host w) /\
+  ucanon (clean_url_path path_clean (u_path u)) = ucanon (clean_url_path path_clean (u_path w)) /\
+  ucanon (u_query u) = ucanon (u_query w).
+Proof. exact fast_u. Qed.
+
+(* queries: strings that differ only in the letter case of the hex digits of well-formed escapes decode to the same
+   pairs; two query strings of the one-case class that EqualFold identifies differ only so *)
+Theorem C14_query_hex_case : forall q q', heq q q' -> query_pairs_u q = query_pairs_u q'.
+Proof. exact query_pairs_u_heq. Qed.
+Theorem C14_query_one_case : forall q q',
+  q_lower_class q = true -> q_lower_class q' = true -> ucanon q = ucanon q' -> query_pairs_u q = query_pairs_u q'.
+Proof. exact class_pairs. Qed.
+
+(* THE CHARACTERISATION on the wide grammar: IRI.Equals is the kernel of the normal form nf_u = (scheme iff asked,
+   host with port, cleaned path - each as its canonical rune list under EqualFold - and the sorted list of DECODED
+   query pairs), for both values of the flag *)
+Theorem C14_char_u : forall a b cs,
+  iri_dom_u a = true -> iri_dom_u b = true -> iri_equ a b cs = nf_u_eqb (nf_u cs a) (nf_u cs b).
+Proof. exact iri_equ_nf. Qed.
+
+Theorem C14_char_u_eq : forall a b cs,
+  iri_dom_u a = true -> iri_dom_u b = true -> (iri_equ a b cs = true <-> nf_u cs a = nf_u cs b).
+Proof. exact iri_equ_nf_eq. Qed.
+
+(* generic in the one-case class: ANY class of query strings on which EqualFold-equal strings decode alike *)
+Theorem C14_char_u_generic : forall qok : bytes -> bool,
+  (forall q q', qok q = true -> qok q' = true -> ucanon q = ucanon q' -> query_pairs_u q = query_pairs_u q') ->
+  forall a b cs, iri_dom_u_with qok a = true -> iri_dom_u_with qok b = true ->
+  iri_equ a b cs = nf_u_eqb (nf_u cs a) (nf_u cs b).
+Proof. exact iri_equ_nf_with. Qed.
+
+Theorem C14_trans_u : forall a b c cs,
+  iri_dom_u a = true -> iri_dom_u b = true -> iri_dom_u c = true ->
+  iri_equ a b cs = true -> iri_equ b c cs = true -> iri_equ a c cs = true.
+Proof. exact iri_equ_trans. Qed.
+
+Theorem C14_equivalence_u : forall cs,
+  (forall a, iri_equ a a cs = true) /\
+  (forall a b, iri_equ a b cs = iri_equ b a cs) /\
+  (forall a b c, iri_dom_u a = true -> iri_dom_u b = true -> iri_dom_u c = true ->
+                 iri_equ a b cs = true -> iri_equ b c cs = true -> iri_equ a c cs = true).
+Proof. exact iri_equ_equivalence. Qed.
+
+Theorem C14_contains_u : forall l x,
+  iri_dom_u x = true -> forallb iri_dom_u l = true ->
+  iris_contains_u l x = existsb (fun i => nf_u_eqb (nf_u false x) (nf_u false i)) l.
+Proof. exact iris_contains_u_nf. Qed.
+
+(* sensitivity: IRIs of the domain whose normal forms without scheme differ are unequal for both flags *)
+Theorem C14_differ_u : forall a b cs,
+  iri_dom_u a = true -> iri_dom_u b = true -> nf_u_eqb (nf_u false a) (nf_u false b) = false -> iri_equ a b cs = false.
+Proof. exact iri_equ_differ. Qed.
+
+(* any two valid-UTF-8 IRIs with scheme and host that compare equal agree on scheme (when asked), host and
+   cleaned path up to EqualFold - whatever their queries look like *)
+Theorem C14_equal_parts_u : forall a b cs u w,
+  utf8_valid a = true -> utf8_valid b = true -> url_classify_u a = UValid u -> url_classify_u b = UValid w ->
+  iri_equ a b cs = true ->
+  (cs = true -> ucanon (u_scheme u) = ucanon (u_scheme w)) /\
+  ucanon (u_host u) = ucanon (u_host w) /\
+  ucanon (clean_url_path path_clean (u_path u)) = ucanon (clean_url_path path_clean (u_path w)).
+Proof. exact iri_equ_true_parts. Qed.
+
+(* why the domain asks for valid UTF-8: "http://h/\xE2%84%AA" is equal to "http://h/\uFFFD%84%AA" by the fast path
+   (both raw strings decode to U+FFFD "%84%AA") and to "http://h/./\xE2%84%AA" by the URL comparison (both paths decode
+   to U+212A), but the last two are unequal.  Replayed on the real IRI.Equals by the harness. *)
+Theorem C14_valid_utf8_needed :
+  exists a b c, utf8_valid a = false /\ utf8_valid b = true /\ utf8_valid c = false /\
+    iri_equ c a false = true /\ iri_equ a b false = true /\ iri_equ c b false = false.
+Proof. exact invalid_utf8_not_transitive. Qed.
+
+(* the one-case condition is still needed, for the letters outside escapes *)
+Theorem C14_one_case_needed_u :
+  exists a b c, iri_dom_u_upper a = true /\ iri_dom_u b = true /\ iri_dom_u c = true /\
+    iri_equ a b false = true /\ iri_equ b c false = true /\ iri_equ a c false = false.
+Proof. exact mixed_case_not_transitive_u. Qed.
+
+(* FINDING (class invalid-utf8-bytes-fold-equal): inside the domain the relation is an equivalence, but it is coarser
+   than "letter case ignored": any two bytes that are not valid UTF-8 - here in a decoded path - are equal, because
+   strings.EqualFold decodes each to U+FFFD.  Replayed on the real code (native check of harness/c14u.go). *)
+Theorem C14_invalid_bytes_equal :
+  iri_equ (B "http://h/%ff") (B "http://h/%fe") true = true /\ iri_dom_u (B "http://h/%ff") = true /\
+  nf_u true (B "http://h/%ff") = nf_u true (B "http://h/%fe").
+Proof. exact invalid_bytes_equal. Qed.
+
+(* the wide models extend the earlier ones: an IRI the parser of layer 4 accepts is parsed to the SAME url value, lies in
+   the wide domain when it lies in iri_dom_x (hence when it lies in iri_dom: C14_x_conservative), and the two models of
+   IRI.Equals give the same answer there - so the theorems of layers 3-4 and the wide ones speak of one relation *)
+Theorem C14_u_same_url : forall s u, url_classify_x s = UValid u -> url_classify_u s = UValid u.
+Proof. exact classify_u_of_x. Qed.
+Theorem C14_u_conservative : forall a, iri_dom_x a = true -> iri_dom_u a = true.
+Proof. exact iri_dom_u_of_x. Qed.
+Theorem C14_u_agrees : forall a b cs, iri_dom_x a = true -> iri_dom_x b = true -> iri_equ a b cs = iri_eqx a b cs.
+Proof. exact iri_equ_of_x. Qed.
+Theorem C14_u_agrees_plain : forall a b cs, iri_dom a = true -> iri_dom b = true ->
+  iri_dom_u a = true /\ iri_dom_u b = true /\ iri_equ a b cs = iri_eqb a b cs.
+Proof.
+  exact (fun a b cs Da Db =>
+    conj (iri_dom_u_of_x a (iri_dom_x_of_plain a Da))
+      (conj (iri_dom_u_of_x b (iri_dom_x_of_plain b Db))
+         (eq_trans (iri_equ_of_x a b cs (iri_dom_x_of_plain a Da) (iri_dom_x_of_plain b Db)) (iri_eqx_of_plain a b cs Da Db)))).
+Qed.
+
+(* "HTTPS://EXÄMPLE.com/users/JÜRGEN/%E2%84%AA?x=%4a&k=a%20b+c", "https://exämple.com/users/./jürgen/k?k=a+b%20c&x=%4A#fr",
+   "http://exämple.com/users/j%C3%BCrgen/K/?k=a+b+c&x=%4A": none in the domain of layer 4, all equal here *)
+Example C14_char_u_example :
+  let a := hx "48545450533a2f2f4558c3844d504c452e636f6d2f75736572732f4ac39c5247454e2f2545322538342541413f783d253461266b3d61253230622b63" in
+  let b := hx "68747470733a2f2f6578c3a46d706c652e636f6d2f75736572732f2e2f6ac3bc7267656e2f6b3f6b3d612b622532306326783d253441236672" in
+  let c := hx "687474703a2f2f6578c3a46d706c652e636f6d2f75736572732f6a2543332542437267656e2f4b2f3f6b3d612b622b6326783d253441" in
+  iri_dom_u a = true /\ iri_dom_u b = true /\ iri_dom_u c = true /\ iri_dom_x a = false /\
+  iri_equ a b true = true /\ iri_equ a c false = true /\ iri_equ b c false = true /\ iri_equ a c true = false /\
+  nf_u false a = Some ([], [69; 88; 196; 77; 80; 76; 69; 46; 67; 79; 77],
+                       [47; 85; 83; 69; 82; 83; 47; 74; 220; 82; 71; 69; 78; 47; 75],
+                       [(B "k", B "a b c"); (B "x", B "J")])%N.
+Proof. cbv zeta. repeat split; vm_compute; reflexivity. Qed.
+
+(* the hypotheses of the wide lemmas are satisfiable by non-trivial values *)
+Example C14_wide_hypotheses_examples :
+  (* C14_decode_fold_u: "/é/K" and "/É/<KELVIN SIGN>", raw; an escaped path that decodes *)
+  utf8_valid (hx "2fc3a92f4b") = true /\ utf8_valid (hx "2fc3892fe284aa") = true /\
+  ucanon (hx "2fc3a92f4b") = ucanon (hx "2fc3892fe284aa") /\ pct_decode (B "/%C3%A9") = Some (hx "2fc3a9") /\
+  (* C14_query_hex_case / C14_query_one_case *)
+  heq (B "x=%4a&y=a+b") (B "x=%4A&y=a+b") /\
+  q_lower_class (B "x=%4a&y=a+b") = true /\ q_lower_class (B "x=%4A&y=a+b") = true /\ q_lower_class (B "X=1") = false /\
+  ucanon (B "x=%4a&y=a+b") = ucanon (B "x=%4A&y=a+b") /\
+  query_pairs_u (B "x=%4a&y=a+b;c&z=%zz&w") = [(B "x", B "J"); (B "w", [])] /\
+  (* C14_fast_path_u: http://h/é/k?x=%4a and HTTP://H/É/<KELVIN SIGN>?x=%4A#f are equal by the fast path *)
+  utf8_valid (hx "687474703a2f2f682fc3a92f6b3f783d253461") = true /\
+  utf8_valid (hx "485454503a2f2f482fc3892fe284aa3f783d2534412366") = true /\
+  iri_dom_u (hx "687474703a2f2f682fc3a92f6b3f783d253461") = true /\
+  iri_dom_u (hx "485454503a2f2f482fc3892fe284aa3f783d2534412366") = true /\
+  ufold_eqb (strip_for true (hx "687474703a2f2f682fc3a92f6b3f783d253461")) (strip_for true (hx "485454503a2f2f482fc3892fe284aa3f783d2534412366")) = true.
+Proof.
+  split; [vm_compute; reflexivity|]. split; [vm_compute; reflexivity|]. split; [vm_compute; reflexivity|]. split; [vm_compute; reflexivity|].
+  split; [apply heq_same, heq_same; apply heq_esc; try reflexivity; apply heq_refl|].
+  split; [vm_compute; reflexivity|]. split; [vm_compute; reflexivity|]. split; [vm_compute; reflexivity|]. split; [vm_compute; reflexivity|].
+  split; [vm_compute; reflexivity|]. split; [vm_compute; reflexivity|]. split; [vm_compute; reflexivity|]. split; [vm_compute; reflexivity|].
+  split; vm_compute; reflexivity.
+Qed.
+
+(* REMAINS OUTSIDE the wide layer: userinfo and IP literals (url_classify_u answers UUnmodelled: layer 1 only);
+   query strings with raw bytes >= 0x80 or with letters in both cases outside escapes; IRIs that are not valid UTF-8
+   (reflexive and symmetric; transitivity fails: C14_valid_utf8_needed).  Layers 2-4 (plain grammar, ASCII folding)
+   stay as they are; on ASCII strings the two foldings agree (C14_fold_ascii). *)
 
 (* ---- the grid of the harness (harness/c14.go: c14Schemes x c14Hosts x c14Paths x c14Queries x c14Frags, the
    nested-URL pairs and the id pools of C10 / gen.go) lies in the domain.  The harness also sends its own
